@@ -315,6 +315,13 @@ func runC05(r *core.Run) {
 		total.Add(n)
 		r.Obs("interleaved_load_cases", n)
 	}
+	// frame headers with any legal number of components (Nf = 1 .. 255; the frame-header length is
+	// 8 + 3 Nf, up to 773): the standard decoders support only 1, 3 and 4, the header is still the header
+	for _, nc := range []int{2, 5, 10, 42, 83, 84, 85, 86, 127, 128, 170, 171, 254, 255} {
+		for _, prog := range []bool{false, true} {
+			one(c05JPEG("many-components", 100+nc, 3000-nc, prog, nc, jpegSamplings[0], rng, 2))
+		}
+	}
 	// JPEG with zero lines in the frame header (legal with a DNL segment, ITU T.81 B.2.5)
 	for _, w := range []int{1, 640, 65535} {
 		one(c05JPEG("dnl-height-0", w, 0, w%2 == 0, 3, jpegSamplings[0], rng, 2))
